@@ -51,7 +51,7 @@ type ProgCfg struct {
 	Aliases      int // max aliases per option
 	Modes        []int
 	Unknowns     []int
-	Required     bool
+	Required     int // percent of options marked required
 	MaxMulti     int // max for multi-value options (default 3)
 	NestedNames  bool
 	FnLess       bool // allow commands without fn
@@ -226,6 +226,12 @@ func GenProg(r *Rng, cfg ProgCfg) *Prog {
 					default:
 						o.EnvVal = r.Pick([]string{"envtext", "e v", "-e", "--", "é=1"})
 					}
+				}
+			}
+			if cfg.Required > 0 && r.Intn(100) < cfg.Required {
+				o.Required = true
+				if r.Bool() {
+					o.ReqMsg = fmt.Sprintf("custom-msg-%d!", o.ID)
 				}
 			}
 			if cfg.SetCalled > 0 && r.Intn(100) < cfg.SetCalled {
